@@ -232,6 +232,10 @@ class Corpus:
         self.cache = os.path.join(vlib.BUILD, "corpus-cache", "%s-%s.json" % (tag, h))
         self.rejected = {}
         self.build_s = 0.0
+        # a shard of more than ~700 kB of source makes rustc need several GB (the derive expands every item):
+        # large corpora are cut into more shards
+        size = sum(len(u.src) + 200 for u in units)
+        self.nshards = max(NSHARDS, min(96, -(-size // 700000)))
 
     def observe(self):
         """-> dict name -> {info, samples}; units rejected at compile time are in self.rejected"""
@@ -243,7 +247,7 @@ class Corpus:
         self.cached = False
         t0 = time.time()
         units = list(self.units)
-        shards_of = lambda us: [us[i::NSHARDS] for i in range(NSHARDS)]
+        shards_of = lambda us: [us[i::self.nshards] for i in range(self.nshards)]
         for attempt in range(6):
             shards = shards_of(units)
             _write_workspace(self.dir, shards, self.features, self.extra_deps, self.extra_prelude)
@@ -281,7 +285,7 @@ class Corpus:
 
     def _ensure_built(self):
         units = [u for u in self.units if u.name not in self.rejected]
-        _write_workspace(self.dir, [units[i::NSHARDS] for i in range(NSHARDS)], self.features, self.extra_deps, self.extra_prelude)
+        _write_workspace(self.dir, [units[i::self.nshards] for i in range(self.nshards)], self.features, self.extra_deps, self.extra_prelude)
         rc, errs, out = _cargo_build(self.dir)
         if rc != 0:
             raise ToolError("corpus %s does not build any more:\n%s" % (self.tag, out[-3000:]))
